@@ -216,6 +216,7 @@ def _o_shiftlon(call):
 
 
 def install():
+    probe.enable_recall("C09.recall", every=5)
     c = "esutil.coords:"
     probe.instrument(c + "euler", [_o_euler])
     for n in NAMED.values():
